@@ -8,7 +8,7 @@ import random
 from .. import core, gen_prog, refval
 from ..monitors import VirtualFS, WatchedOptions, counter_invariant
 from ..refast import pp
-from ..refeval import RefRuntimeError
+from ..refeval import Domain, RefRuntimeError, Unspecified
 from ..refvm import RefVM, norm_url
 
 
@@ -153,6 +153,8 @@ def ref_run(model, init, limit, files, base, api, bool_num=False, fuel=600):
     vm = RefVM(g, lib, limit=limit, fetch=fetch, base=base, parse=bare_script.parse_script, fuel=fuel, bool_num=bool_num)
     try:
         r = ('ok', refval.canon(vm.run(model)))
+    except (Domain, Unspecified):
+        return None  # left open by the reference (arithmetic domain error / single-statement resource exhaustion)
     except RefRuntimeError as exc:
         r = ('err', str(exc))
     return {'r': r, 'logs': vm.logs, 'globals': user(g, lib), 'count': vm.clock, 'fetches': [norm_url(u) for u in vm.fetches]}
@@ -169,6 +171,9 @@ def check_program(text, files, base, init, acc, api, case):
         acc.note_inconclusive(f'generated program did not parse: {exc}'[:300])
         return
     r0 = ref_run(model, init, 0, files, base, api)
+    if r0 is None:
+        acc.count('skipped_unspecified_by_reference')
+        return
     variant = False
     if r0['r'] != ('err', 'ref-fuel'):
         # decide once per program which reference reading applies: if the unlimited real run is explained only by
@@ -176,7 +181,7 @@ def check_program(text, files, base, init, acc, api, case):
         probe = real_run(model, init, 0, files, base, api)
         if probe is not None and any(probe[k] != r0[k] for k in KEYS):
             r14 = ref_run(model, init, 0, files, base, api, bool_num=True)
-            if not any(probe[k] != r14[k] for k in KEYS):
+            if r14 is not None and not any(probe[k] != r14[k] for k in KEYS):
                 variant = True
                 r0 = r14
                 acc.known_finding('F14', text.replace('\n', ' | ')[:200])
@@ -200,6 +205,9 @@ def check_program(text, files, base, init, acc, api, case):
             acc.timeouts += 1
             continue
         ref = ref_run(model, init, L, files, base, api, bool_num=variant) if L != 0 else r0
+        if ref is None:
+            acc.count('skipped_unspecified_by_reference')
+            continue
         c = dict(case, limit=L)
         acc.count('runs')
         acc.count('counter_writes_observed', len(real['sink']))
@@ -214,7 +222,7 @@ def check_program(text, files, base, init, acc, api, case):
         bad = [k for k in keys if real[k] != ref[k]]
         if bad:
             ref14 = ref_run(model, init, L, files, base, api, bool_num=True)
-            if not variant and N is None and not [k for k in keys if real[k] != ref14[k]]:
+            if not variant and N is None and ref14 is not None and not [k for k in keys if real[k] != ref14[k]]:
                 acc.known_finding('F14', text.replace('\n', ' | ')[:200])
             else:
                 acc.violation('budget-run-differs:' + ','.join(bad),
